@@ -130,6 +130,35 @@ def scenario(name, depth, fallback, encoding="utf-8"):
             data = await stream.read()
         if data != DATA:
             problems.append({"kind": "download", "step": "download_stream", "got": repr(data)})
+        # 8b another session sees and changes the same name; this session must see that at once
+        c2 = a.Client(path_io_factory=a.MemoryPathIO, encoding=encoding)
+        await c2.connect("127.0.0.1", 2121)
+        await c2.login()
+        got = [(str(p), i.get("type")) for p, i in await c2.list(d)]
+        if got != [(str(f), "file")]:
+            problems.append({"kind": "list", "step": "other-session-list", "got": got, "want": [(str(f), "file")]})
+        moved = d / ("m" + name)
+        await c2.rename(f, moved)
+        if await c.exists(f) or not await c.exists(moved):
+            problems.append({"kind": "stat", "step": "other-session-rename-not-seen"})
+        async with c.download_stream(moved) as stream:
+            if await stream.read() != DATA:
+                problems.append({"kind": "download", "step": "download-after-other-session-rename"})
+        await c2.rename(moved, f)
+        await c2.remove(f)
+        async with c2.upload_stream(f) as st:
+            await st.write(b"second-" + DATA)
+        async with c.download_stream(f) as stream:
+            data = await stream.read()
+        if data != b"second-" + DATA:
+            problems.append({"kind": "download", "step": "download-after-other-session-replaced-the-file", "got": repr(data)})
+        st2 = await c.stat(f)
+        if str(st2.get("size")) != str(len(DATA) + 7):
+            problems.append({"kind": "stat", "step": "stat-after-other-session-replaced-the-file", "got": dict(st2)})
+        await c2.remove(f)
+        async with c2.upload_stream(f) as st:
+            await st.write(DATA)
+        await c2.quit()
         # 9 rename away (to another special name) and back
         other = d / ("r" + name)
         await c.rename(f, other)
